@@ -53,11 +53,27 @@ Theorem merge_arith_ok outer inner x c1 c2 op' c' :
   is_cmp outer = false -> merge_binop outer inner c1 c2 = Some (op', c') ->
   forall v, rt_binop inner x c1 = Val v -> rt_binop outer v c2 = rt_binop op' x c'.
 Proof.
-  intros Hc Hm v Hv. destruct outer, inner; cbn in Hc, Hm; try discriminate; inversion Hm; subst; cbn in *;
-    inversion Hv; subst.
-  - f_equal. apply merge_mul.
-  - f_equal. apply merge_plus.
+  intros Hc Hm v Hv. destruct outer, inner; cbn in Hc, Hm; try discriminate.
+  - inversion Hm; subst; cbn in *. inversion Hv; subst. f_equal. apply merge_mul.
+  - destruct (in32b (c1 + c2)) eqn:E; inversion Hm; subst; cbn in *. inversion Hv; subst. f_equal.
+    rewrite merge_plus. rewrite (wrap32_id (c1 + c2)); [reflexivity | now apply in32b_spec].
 Qed.
+
+(* the merged addition overflows only if one of the two original additions did: with a merged constant the
+   optimized code is again overflow-free on overflow-free runs, which is what the comparison rule (merge_cmp_ok,
+   applied in a later round to the merged statement) needs *)
+Theorem merge_plus_no_new_overflow x c1 c2 op' c' :
+  merge_binop PLUS PLUS c1 c2 = Some (op', c') -> in32 (x + c1) -> in32 (x + c1 + c2) ->
+  op' = PLUS /\ in32 c' /\ in32 (x + c') /\ x + c' = x + c1 + c2.
+Proof.
+  cbn. destruct (in32b (c1 + c2)) eqn:E; intros Hm H1 H2; inversion Hm; subst.
+  apply in32b_spec in E. unfold in32 in *. repeat split; lia.
+Qed.
+
+(* the pre-repair rule (wrapping sum) did introduce an overflow: (x + MAX) + 1 with x = -5 *)
+Theorem merge_plus_wrapping_old_refuted :
+  exists x c1 c2, in32 (x + c1) /\ in32 (x + c1 + c2) /\ ~ in32 (x + wrap32 (c1 + c2)).
+Proof. exists (-5), MAX, 1. unfold in32, MAX, MIN, wrap32. cbn. lia. Qed.
 
 (* ---- trip count ---- *)
 Lemma trip_lt_correct i0 inc g k : trip_lt i0 inc g = Some k ->
